@@ -259,7 +259,7 @@ pub fn describe(frame: &AMQPFrame, total_len: usize) -> Value {
             d
         }
         AMQPFrame::Header(ch, class_id, h) => json!({"type":"header","ch":ch,"class_id":class_id,
-            "body_size":small(h.body_size),"props":props_str(&h.properties)}),
+            "body_size":small(h.body_size),"bsz":h.body_size.min(2_000_000_001),"props":props_str(&h.properties)}),
         AMQPFrame::Body(ch, b) => json!({"type":"body","ch":ch,"size":b.len(),"hash":hash31(b)}),
         AMQPFrame::Heartbeat(ch) => json!({"type":"heartbeat","ch":ch}),
     };
